@@ -22,6 +22,8 @@ Definition deliver_state (s : st) : Prop := app_gate12 s = true \/ app_gate13 s 
 
 Lemma apply_hs_not_deliver s o s' : apply_hs s o <> (s', Deliver).
 Proof. destruct o; cbn; unfold fatal; congruence. Qed.
+Lemma apply_hsD_not_deliver s o s' : apply_hsD s o <> (s', Deliver).
+Proof. destruct o; cbn; unfold fatal; congruence. Qed.
 
 Lemma recv_alert13_not_deliver s l d s' : recv_alert13 s l d <> (s', Deliver).
 Proof. unfold recv_alert13. congruence. Qed.
@@ -31,6 +33,7 @@ Proof. unfold recv_alert12. congruence. Qed.
 Ltac kill_nd :=
   try discriminate;
   try (exfalso; eapply apply_hs_not_deliver; eassumption);
+  try (exfalso; eapply apply_hsD_not_deliver; eassumption);
   try (exfalso; eapply recv_alert13_not_deliver; eassumption);
   try (exfalso; eapply recv_alert12_not_deliver; eassumption).
 
@@ -64,28 +67,84 @@ Proof.
   try (pose proof (app_gate13_rsec _ ltac:(eassumption)); congruence).
 Qed.
 
+(* ------------------------------------------------------------------ DTLS, one step *)
+(* which records of a DTLS session reach decryption: the expected epoch with a sequence number the replay window has not seen,
+   or a later epoch adopted in the two corner cases of sslDecode.c 725-786 *)
+Definition dtls_accepts (s : st) (r : rec) : Prop :=
+  (r_epoch r = xepoch s /\ r_replay r = Fresh) \/
+  (xepoch s < r_epoch r /\ ((r_outer r = c_SSL_RECORD_TYPE_APPLICATION_DATA /\ hs s = c_SSL_HS_DONE) \/
+                            (r_outer r = c_SSL_RECORD_TYPE_HANDSHAKE /\ hs s = c_SSL_HS_FINISHED /\ pccs s = true))).
+
+Lemma decodeD_body_deliver s r o s' :
+  decodeD_body s r o = (s', Deliver) ->
+  app_gate12 s = true /\ (rsec s = true -> is_good r = true) /\ r_outer r = c_SSL_RECORD_TYPE_APPLICATION_DATA.
+Proof.
+  unfold decodeD_body, fatal, is_good. intro H.
+  destruct (rsec s && negb (match r_prot r with Good => true | _ => false end)) eqn:E0; [discriminate|].
+  assert (Hg : rsec s = true -> match r_prot r with Good => true | _ => false end = true).
+  { intro Hr. rewrite Hr in E0. cbn in E0. apply negb_false_iff in E0. exact E0. }
+  destruct (r_overflow r); [discriminate|].
+  destruct (Z.eqb (r_outer r) c_SSL_RECORD_TYPE_CHANGE_CIPHER_SPEC).
+  { repeat (break_if; kill_nd). }
+  destruct (Z.eqb (r_outer r) c_SSL_RECORD_TYPE_ALERT).
+  { repeat (break_if; kill_nd). }
+  destruct (Z.eqb (r_outer r) c_SSL_RECORD_TYPE_HANDSHAKE); [kill_nd|].
+  destruct (Z.eqb (r_outer r) c_SSL_RECORD_TYPE_APPLICATION_DATA) eqn:Et; [|discriminate].
+  apply Z.eqb_eq in Et.
+  destruct (negb (app_gate12 s)) eqn:Eg; [discriminate|]. apply negb_false_iff in Eg.
+  repeat split; auto.
+Qed.
+
+Lemma skipD_not_deliver s0 n ol t s' : skipD s0 n ol t <> (s', Deliver).
+Proof. unfold skipD, fatal. repeat break_if; congruence. Qed.
+
+Lemma decodeD_deliver s r o s' :
+  decodeD s r o = (s', Deliver) ->
+  app_gate12 s = true /\ (rsec s = true -> is_good r = true) /\ r_outer r = c_SSL_RECORD_TYPE_APPLICATION_DATA /\ dtls_accepts s r.
+Proof.
+  unfold decodeD, fatal. intro H.
+  destruct (r_hdr r); try discriminate.
+  destruct (Z.eqb (r_epoch r) (xepoch s)) eqn:Ee.
+  - apply Z.eqb_eq in Ee. destruct (r_replay r) eqn:Er; [|discriminate].
+    apply decodeD_body_deliver in H. destruct H as [H1 [H2 H3]]. repeat split; auto. left. auto.
+  - destruct (Z.ltb (xepoch s) (r_epoch r)) eqn:En; cbn [andb] in H.
+    + apply Z.ltb_lt in En.
+      destruct (Z.eqb (r_outer r) c_SSL_RECORD_TYPE_HANDSHAKE && Z.eqb (hs s) c_SSL_HS_FINISHED) eqn:E1.
+      * destruct (negb (pccs s)) eqn:Ep; [discriminate|].
+        apply decodeD_body_deliver in H. destruct H as [H1 [H2 H3]].
+        apply andb_prop in E1. destruct E1 as [E1 _]. apply Z.eqb_eq in E1. rewrite E1 in H3. vm_compute in H3. discriminate.
+      * destruct (Z.eqb (r_outer r) c_SSL_RECORD_TYPE_APPLICATION_DATA && Z.eqb (hs s) c_SSL_HS_DONE) eqn:E2.
+        -- apply decodeD_body_deliver in H. destruct H as [H1 [H2 H3]].
+           apply andb_prop in E2. destruct E2 as [E2a E2b]. apply Z.eqb_eq in E2a. apply Z.eqb_eq in E2b.
+           repeat split; auto. right. split; [assumption|]. left. auto.
+        -- destruct (Z.eqb (r_outer r) c_SSL_RECORD_TYPE_HANDSHAKE && Z.eqb (hs s) c_SSL_HS_DONE);
+             exfalso; eapply skipD_not_deliver; eassumption.
+    + exfalso; eapply skipD_not_deliver; eassumption.
+Qed.
+
 (* ------------------------------------------------------------------ C01, one step *)
 Lemma decode_deliver s r o s' :
   decode s r o = (s', Deliver) ->
-  err s = false /\ closed s = false /\ rsec s = true /\ is_good r = true /\ deliver_state s.
+  err s = false /\ closed s = false /\ rsec s = true /\ is_good r = true /\ deliver_state s /\
+  (dtls s = true -> dtls_accepts s r).
 Proof.
   unfold decode. intro H.
   destruct (err s || closed s) eqn:Eg; [discriminate|].
   apply orb_false_elim in Eg. destruct Eg as [Ee Ec].
-  assert (D12 : forall s', decode12 s r o = (s', Deliver) ->
-            err s = false /\ closed s = false /\ rsec s = true /\ is_good r = true /\ deliver_state s).
-  { intros s0 H0. apply decode12_deliver in H0. destruct H0 as [Hg Hp].
+  destruct (dtls s) eqn:Ed.
+  { apply decodeD_deliver in H. destruct H as [Hg [Hp [_ Ha]]].
     pose proof (app_gate12_rsec _ Hg) as Hr. repeat split; auto. left. assumption. }
+  assert (D12 : forall o' s', decode12 s r o' = (s', Deliver) ->
+            err s = false /\ closed s = false /\ rsec s = true /\ is_good r = true /\ deliver_state s /\
+            (false = true -> dtls_accepts s r)).
+  { intros o' s0 H0. apply decode12_deliver in H0. destruct H0 as [Hg Hp].
+    pose proof (app_gate12_rsec _ Hg) as Hr. repeat split; auto; [left; assumption|discriminate]. }
   destruct (v13 s).
   - destruct (is_fallback o).
-    + assert (D12' : forall o' s', decode12 s r o' = (s', Deliver) ->
-            err s = false /\ closed s = false /\ rsec s = true /\ is_good r = true /\ deliver_state s).
-      { intros o' s0 H0. apply decode12_deliver in H0. destruct H0 as [Hg Hp].
-        pose proof (app_gate12_rsec _ Hg) as Hr. repeat split; auto. left. assumption. }
-      eapply D12'; eassumption.
+    + eapply D12; eassumption.
     + apply decode13_deliver in H; destruct H as [Hg Hp];
-       pose proof (app_gate13_rsec _ Hg) as Hr; repeat split; auto; right; assumption.
-  - apply D12 in H. assumption.
+       pose proof (app_gate13_rsec _ Hg) as Hr; repeat split; auto; [right; assumption|discriminate].
+  - eapply D12; eassumption.
 Qed.
 
 (* pre-states of a run *)
@@ -106,7 +165,8 @@ Qed.
 Theorem run_deliver_gate : forall is s k,
   nth_error (snd (run s is)) k = Some Deliver ->
   exists sk r o, nth_error (pre_states s is) k = Some sk /\ nth_error is k = Some (r, o) /\
-                 err sk = false /\ closed sk = false /\ rsec sk = true /\ is_good r = true /\ deliver_state sk.
+                 err sk = false /\ closed sk = false /\ rsec sk = true /\ is_good r = true /\ deliver_state sk /\
+                 (dtls sk = true -> dtls_accepts sk r).
 Proof.
   induction is as [|[r o] rest IH]; intros s k H.
   - destruct k; discriminate.
@@ -118,12 +178,53 @@ Proof.
       exists sk, r0, o0. cbn [pre_states nth_error]. exact H.
 Qed.
 
+(* What a network attacker without the session keys can present to a session in state [s]: a record that does not verify
+   under the receiver's read key (plaintext, garbage, a modified record, a record of the other direction or of other keys),
+   or - DTLS, where sequence numbers are explicit - a verbatim copy of a record of the expected epoch that the receiver has
+   already accepted, which the replay window answers with Dup (C16). *)
+Definition attacker_input (s : st) (i : input) : Prop :=
+  is_good (fst i) = false \/ (dtls s = true /\ r_replay (fst i) = Dup /\ r_epoch (fst i) = xepoch s).
+
+(* a predicate on (pre-state, input) holds at every step of a run *)
+Fixpoint all_steps (P : st -> input -> Prop) (s : st) (is : list input) : Prop :=
+  match is with
+  | [] => True
+  | i :: rest => P s i /\ all_steps P (fst (decode s (fst i) (snd i))) rest
+  end.
+
+Lemma all_steps_nth P : forall is s k sk i,
+  all_steps P s is -> nth_error (pre_states s is) k = Some sk -> nth_error is k = Some i -> P sk i.
+Proof.
+  induction is as [|[r o] rest IH]; intros s k sk i Ha Hs Hi.
+  - destruct k; discriminate.
+  - cbn [all_steps fst snd] in Ha. destruct Ha as [Ha1 Ha2]. destruct k as [|k].
+    + cbn in Hs, Hi. injection Hs as Hs. injection Hi as Hi. subst. exact Ha1.
+    + cbn [pre_states nth_error] in Hs, Hi. eapply IH; eassumption.
+Qed.
+
+Theorem attacker_never_delivers_gen : forall is s,
+  all_steps attacker_input s is -> ~ In Deliver (snd (run s is)).
+Proof.
+  intros is s Ha Hin. apply In_nth_error in Hin. destruct Hin as [k Hk].
+  apply run_deliver_gate in Hk. destruct Hk as [sk [r [o [Hs [Hi [_ [_ [_ [Hg [_ Hd]]]]]]]]]].
+  pose proof (all_steps_nth _ _ _ _ _ _ Ha Hs Hi) as [Hb|[Hdt [Hdup Hep]]]; cbn [fst] in *.
+  - congruence.
+  - specialize (Hd Hdt). destruct Hd as [[_ Hf]|[Hlt _]]; [congruence|]. rewrite Hep in Hlt. apply Z.lt_irrefl in Hlt. exact Hlt.
+Qed.
+
+Lemma all_steps_of_forall (Q : input -> Prop) (P : st -> input -> Prop) :
+  (forall s i, Q i -> P s i) -> forall is s, Forall Q is -> all_steps P s is.
+Proof.
+  intros HQ. induction is as [|i rest IH]; intros s Hf; [exact I|].
+  inversion Hf; subst. cbn [all_steps]. split; [apply HQ; assumption|apply IH; assumption].
+Qed.
+
 Theorem attacker_never_delivers : forall is s,
   Forall (fun i => is_good (fst i) = false) is -> ~ In Deliver (snd (run s is)).
 Proof.
-  intros is s Hf Hin. apply In_nth_error in Hin. destruct Hin as [k Hk].
-  apply run_deliver_gate in Hk. destruct Hk as [sk [r [o [_ [Hi [_ [_ [_ [Hg _]]]]]]]]].
-  apply nth_error_In in Hi. rewrite Forall_forall in Hf. apply Hf in Hi. cbn in Hi. congruence.
+  intros is s Hf. apply attacker_never_delivers_gen.
+  apply (all_steps_of_forall (fun i => is_good (fst i) = false)); [|assumption].
+  intros s0 i Hi. left. exact Hi.
 Qed.
 
 Theorem encode_gate : forall s, encode_app_ok s = true ->
@@ -149,6 +250,12 @@ Ltac zb := repeat match goal with
   end.
 
 Lemma apply_hs_rsec s o s' out : apply_hs s o = (s', out) -> rsec s = false -> rsec s' = true ->
+  exists h w v resp, o = HsOk h true w v resp.
+Proof.
+  destruct o; cbn; unfold fatal; intros H Hr Hr'; injection H as H _; subst s'; cbn in Hr'; try congruence.
+  subst. eauto.
+Qed.
+Lemma apply_hsD_rsec s o s' out : apply_hsD s o = (s', out) -> rsec s = false -> rsec s' = true ->
   exists h w v resp, o = HsOk h true w v resp.
 Proof.
   destruct o; cbn; unfold fatal; intros H Hr Hr'; injection H as H _; subst s'; cbn in Hr'; try congruence.
@@ -186,18 +293,50 @@ Proof.
   all: try (cbn in Hr'; congruence).
 Qed.
 
+Lemma decodeD_body_rsec s r o s' out : decodeD_body s r o = (s', out) -> rsec s = false -> rsec s' = true ->
+  (r_outer r = c_SSL_RECORD_TYPE_CHANGE_CIPHER_SPEC /\ hs s = c_SSL_HS_FINISHED) \/ exists h w v resp, o = HsOk h true w v resp.
+Proof.
+  intros H Hr Hr'. unfold decodeD_body, fatal in H.
+  repeat (break_if; try (injection H as H _; subst s'; cbn in Hr'; try congruence)).
+  all: try (right; eapply apply_hsD_rsec; eassumption).
+  all: try (erewrite recv_alert12_rsec in Hr' by eassumption; congruence).
+  all: try (cbn in Hr'; congruence).
+  all: zb; left; auto.
+Qed.
+
+Lemma skipD_rsec s0 n ol t s' out : skipD s0 n ol t = (s', out) -> rsec s' = rsec s0.
+Proof. unfold skipD, fatal. intro H. repeat break_if; injection H as H _; subst s'; reflexivity. Qed.
+
+Lemma decodeD_rsec s r o s' out : decodeD s r o = (s', out) -> rsec s = false -> rsec s' = true ->
+  ccs_cause s r \/ exists h w v resp, o = HsOk h true w v resp.
+Proof.
+  intros H Hr Hr'. unfold decodeD, fatal in H.
+  assert (B : forall s0, rsec s0 = rsec s -> hs s0 = hs s -> decodeD_body s0 r o = (s', out) ->
+              ccs_cause s r \/ exists h w v resp, o = HsOk h true w v resp).
+  { intros s0 H1 H2 H3. apply decodeD_body_rsec in H3; try congruence.
+    destruct H3 as [[Ha Hb]|H3]; [left; split; [assumption|left; congruence]|right; assumption]. }
+  destruct (r_hdr r); try (injection H as H _; subst s'; cbn in Hr'; congruence).
+  repeat (break_if; try (injection H as H _; subst s'; cbn in Hr'; try congruence)).
+  all: try (destruct (r_replay r); [|injection H as H _; subst s'; congruence]).
+  all: try (eapply B; [| |eassumption]; reflexivity).
+  all: try (apply skipD_rsec in H; cbn in H; congruence).
+Qed.
+
 Theorem rsec_origin : forall s r o s' out,
   decode s r o = (s', out) -> rsec s = false -> rsec s' = true ->
-  ((v13 s = false \/ is_fallback o = true) /\ ccs_cause s r) \/ exists h w v resp, legacy_answer o = HsOk h true w v resp.
+  ((dtls s = true \/ v13 s = false \/ is_fallback o = true) /\ ccs_cause s r) \/ exists h w v resp, legacy_answer o = HsOk h true w v resp.
 Proof.
   intros s r o s' out H Hr Hr'. unfold decode in H.
   destruct (err s || closed s); [injection H as H _; subst s'; congruence|].
+  destruct (dtls s) eqn:Ed.
+  { eapply decodeD_rsec in H; try assumption. destruct H as [H|H]; [left; split; [left; reflexivity|assumption]|].
+    right. destruct H as [h [w [v [resp H]]]]. rewrite H. cbn. eauto. }
   destruct (v13 s) eqn:Ev.
   - destruct (is_fallback o) eqn:Ef.
-    + eapply decode12_rsec in H; try assumption. destruct H as [H|H]; [left; split; [right; reflexivity|assumption]|right; assumption].
+    + eapply decode12_rsec in H; try assumption. destruct H as [H|H]; [left; split; [right; right; reflexivity|assumption]|right; assumption].
     + right. replace (legacy_answer o) with o by (destruct o; try reflexivity; discriminate Ef).
       eapply decode13_rsec; eassumption.
-  - eapply decode12_rsec in H; try assumption. destruct H as [H|H]; [left; split; [left; reflexivity|assumption]|].
+  - eapply decode12_rsec in H; try assumption. destruct H as [H|H]; [left; split; [right; left; reflexivity|assumption]|].
     right. destruct H as [h [w [v [resp H]]]]. rewrite H. cbn. eauto.
 Qed.
 
@@ -223,6 +362,8 @@ Qed.
 
 Lemma apply_hs_alertout s o s' d : apply_hs s o = (s', AlertOut d) -> err s' = true.
 Proof. destruct o; cbn; unfold fatal; intro H; try discriminate. injection H as H _. subst s'. reflexivity. Qed.
+Lemma apply_hsD_alertout s o s' d : apply_hsD s o = (s', AlertOut d) -> err s' = true.
+Proof. destruct o; cbn; unfold fatal; intro H; try discriminate. injection H as H _. subst s'. reflexivity. Qed.
 
 Lemma recv_alert12_not_out s l d s' x : recv_alert12 s l d <> (s', AlertOut x).
 Proof. unfold recv_alert12. congruence. Qed.
@@ -233,6 +374,7 @@ Ltac leaf_out H s' :=
   first [ discriminate H
         | (injection H as H _; subst s'; reflexivity)
         | (eapply apply_hs_alertout; eassumption)
+        | (eapply apply_hsD_alertout; eassumption)
         | (exfalso; eapply recv_alert12_not_out; eassumption)
         | (exfalso; eapply recv_alert13_not_out; eassumption) ].
 
@@ -252,10 +394,28 @@ Proof.
   all: repeat (break_if; try (leaf_out H s')).
 Qed.
 
+Lemma decodeD_body_out s r o s' d : decodeD_body s r o = (s', AlertOut d) -> err s' = true.
+Proof.
+  intro H. unfold decodeD_body, fatal in H.
+  repeat (break_if; try (leaf_out H s')).
+Qed.
+Lemma skipD_out s0 n ol t s' d : skipD s0 n ol t = (s', AlertOut d) -> err s' = true.
+Proof. unfold skipD, fatal. intro H. repeat (break_if; try (leaf_out H s')). Qed.
+
+Lemma decodeD_out s r o s' d : decodeD s r o = (s', AlertOut d) -> err s' = true.
+Proof.
+  intro H. unfold decodeD, fatal in H.
+  destruct (r_hdr r); try (leaf_out H s').
+  repeat (break_if; try (leaf_out H s')).
+  all: try (destruct (r_replay r); try (leaf_out H s')).
+  all: first [ eapply decodeD_body_out; eassumption | eapply skipD_out; eassumption ].
+Qed.
+
 Theorem fatal_out_flags : forall s r o s' d, decode s r o = (s', AlertOut d) -> err s' = true.
 Proof.
   intros s r o s' d H. unfold decode in H.
   destruct (err s || closed s); [discriminate|].
+  destruct (dtls s); [eapply decodeD_out; eassumption|].
   destruct (v13 s); [destruct (is_fallback o)|]; first [eapply decode13_out; eassumption | eapply decode12_out; eassumption].
 Qed.
 
@@ -280,12 +440,15 @@ Proof.
 Qed.
 Lemma apply_hs_not_in s o s' l d : apply_hs s o <> (s', AlertIn l d).
 Proof. destruct o; cbn; unfold fatal; congruence. Qed.
+Lemma apply_hsD_not_in s o s' l d : apply_hsD s o <> (s', AlertIn l d).
+Proof. destruct o; cbn; unfold fatal; congruence. Qed.
 
 Ltac leaf_in H :=
   first [ discriminate H
         | (eapply recv_alert12_in; eassumption)
         | (eapply recv_alert13_in; eassumption)
-        | (exfalso; eapply apply_hs_not_in; eassumption) ].
+        | (exfalso; eapply apply_hs_not_in; eassumption)
+        | (exfalso; eapply apply_hsD_not_in; eassumption) ].
 
 Lemma decode12_in s r o s' lvl d : decode12 s r o = (s', AlertIn lvl d) -> in12 s' lvl d.
 Proof.
@@ -301,20 +464,38 @@ Proof.
   all: destruct (r_prot r); try (leaf_in H).
   all: repeat (break_if; try (leaf_in H)).
 Qed.
+Lemma decodeD_body_in s r o s' lvl d : decodeD_body s r o = (s', AlertIn lvl d) -> in12 s' lvl d.
+Proof.
+  intro H. unfold decodeD_body, fatal in H.
+  repeat (break_if; try (leaf_in H)).
+Qed.
+Lemma skipD_not_in s0 n ol t s' l d : skipD s0 n ol t <> (s', AlertIn l d).
+Proof. unfold skipD, fatal. repeat break_if; congruence. Qed.
+Lemma decodeD_in s r o s' lvl d : decodeD s r o = (s', AlertIn lvl d) -> in12 s' lvl d.
+Proof.
+  intro H. unfold decodeD, fatal in H.
+  destruct (r_hdr r); try (leaf_in H).
+  repeat (break_if; try (leaf_in H)).
+  all: try (destruct (r_replay r); try (leaf_in H)).
+  all: first [ eapply decodeD_body_in; eassumption | exfalso; eapply skipD_not_in; eassumption ].
+Qed.
 
 Theorem alert_in_flags : forall s r o s' lvl d, decode s r o = (s', AlertIn lvl d) ->
   (d = c_SSL_ALERT_CLOSE_NOTIFY -> closed s' = true) /\
-  (d <> c_SSL_ALERT_CLOSE_NOTIFY -> (v13 s = true /\ is_fallback o = false) \/ lvl = c_SSL_ALERT_LEVEL_FATAL -> err s' = true).
+  (d <> c_SSL_ALERT_CLOSE_NOTIFY -> (dtls s = false /\ v13 s = true /\ is_fallback o = false) \/ lvl = c_SSL_ALERT_LEVEL_FATAL -> err s' = true).
 Proof.
   intros s r o s' lvl d H. unfold decode in H.
   destruct (err s || closed s); [discriminate|].
+  destruct (dtls s) eqn:Ed.
+  { apply decodeD_in in H. destruct H as [H1 H2]. split; [assumption|].
+    intros Hn [[Hx _]|Hf]; [discriminate|auto]. }
   destruct (v13 s) eqn:Ev.
   - destruct (is_fallback o) eqn:Ef.
     + apply decode12_in in H. destruct H as [H1 H2]. split; [assumption|].
-      intros Hn [[_ Hx]|Hf]; [congruence|auto].
+      intros Hn [[_ [_ Hx]]|Hf]; [congruence|auto].
     + apply decode13_in in H. destruct H as [H1 H2]. split; [assumption|]. intros Hn _. auto.
   - apply decode12_in in H. destruct H as [H1 H2]. split; [assumption|].
-    intros Hn [[Hx _]|Hf]; [discriminate|auto].
+    intros Hn [[_ [Hx _]]|Hf]; [discriminate|auto].
 Qed.
 
 (* err / closed are never cleared, whatever the handshake layer answers *)
@@ -330,31 +511,171 @@ Qed.
 
 (* the only undecryptable records that do not kill a TLS 1.3 session are early data a server is skipping, within the limit *)
 Theorem undecryptable_tolerated_only_early_data : forall s r o s' out,
-  v13 s = true -> is_fallback o = false -> rsec s = true -> is_good r = false ->
+  dtls s = false -> v13 s = true -> is_fallback o = false -> rsec s = true -> is_good r = false ->
+  r_hdr r <> HdrTrunc ->
   r_outer r <> c_SSL_RECORD_TYPE_CHANGE_CIPHER_SPEC ->
   (r_outer r = c_SSL_RECORD_TYPE_ALERT -> r_short_alert r = false) ->
   decode s r o = (s', out) ->
   out = Refuse \/ (exists d, out = AlertOut d /\ err s' = true) \/
   (out = Ignored /\ ed_skip s = true /\ ed_seen s' <= ed_max s /\ ed_seen s' = ed_seen s + r_len r).
 Proof.
-  intros s r o s' out Hv Ho Hr Hg Hccs Hal H. unfold decode in H.
-  destruct (err s || closed s); [injection H as _ H; left; auto|]. rewrite Hv in H.
+  intros s r o s' out Hd Hv Ho Hr Hg Htr Hccs Hal H. unfold decode in H.
+  destruct (err s || closed s); [injection H as _ H; left; auto|]. rewrite Hd, Hv in H.
   rewrite Ho in H. assert (H13 : decode13 s r o = (s', out)) by assumption. clear H.
   unfold decode13, fatal in H13. rewrite Hr in H13. unfold is_good in Hg.
   destruct (r_prot r) eqn:Ep; try discriminate Hg; cbv beta iota zeta in H13.
-  all: destruct (r_hdr r); try (injection H13 as H1 H2; subst; right; left; eexists; split; reflexivity).
+  all: destruct (r_hdr r); try congruence; try (injection H13 as H1 H2; subst; right; left; eexists; split; reflexivity).
   all: repeat (break_if; try (injection H13 as H1 H2; subst; right; left; eexists; split; reflexivity)).
   all: zb; try contradiction; try (specialize (Hal ltac:(assumption)); congruence).
   all: try (injection H13; intros; subst; right; right; cbn; repeat split; auto; apply Z.leb_le; assumption).
 Qed.
 
+(* ------------------------------------------------------------------ C15, DTLS
+   DTLS legitimately drops records without treating them as an error: records of another epoch and sequence numbers the replay
+   window has seen (RFC 6347 4.1.2.1 / 4.1.2.6).  Reading of C15 used here: a silently discarded record is not "an error the
+   session hit" - the session neither sends nor receives an alert and reports no error - so the session may live on; but
+   (1) a discard changes nothing an attacker could profit from (flags, handshake state, write protection, counters), and
+   (2) a record that IS taken to decryption and fails kills the session exactly as in TLS: nothing undecryptable is tolerated
+       once it has been decrypted. *)
+Definition silent (out : outcome) : Prop := out = Ignored \/ out = Resend.
+
+Lemma skipD_state s0 n ol t s' out : skipD s0 n ol t = (s', out) -> silent out -> s' = s0.
+Proof.
+  unfold skipD, fatal, silent. intros H Hs.
+  repeat break_if; injection H as H1 H2; subst; try reflexivity; destruct Hs; discriminate.
+Qed.
+
+(* a DTLS record that is not of the expected epoch, or whose sequence number the window has seen, and that is not one of the two
+   epoch-adoption cases, never reaches decryption: it is dropped (silently or with a retransmission request), or - a later epoch
+   at a server still expecting ClientHello - answered with a fatal alert; a drop changes nothing but the expected epoch *)
+Theorem dtls_not_accepted_dropped : forall s r o s' out,
+  r_hdr r = HdrOk -> ~ dtls_accepts s r -> decodeD s r o = (s', out) ->
+  (exists d, out = AlertOut d /\ err s' = true) \/
+  (silent out /\ err s' = err s /\ closed s' = closed s /\ hs s' = hs s /\ rsec s' = rsec s /\ wsec s' = wsec s /\
+   pccs s' = pccs s /\ adx s' = adx s /\ ignored s' = ignored s /\ (xepoch s' = xepoch s \/ xepoch s' = r_epoch r)).
+Proof.
+  intros s r o s' out Hh Hna H. unfold decodeD in H. rewrite Hh in H.
+  assert (S : forall s0, (s0 = s \/ s0 = set_xepoch s (r_epoch r)) -> skipD s0 (Z.ltb (xepoch s) (r_epoch r)) (Z.ltb (r_epoch r) (xepoch s)) (r_outer r) = (s', out) ->
+     (exists d, out = AlertOut d /\ err s' = true) \/
+     (silent out /\ err s' = err s /\ closed s' = closed s /\ hs s' = hs s /\ rsec s' = rsec s /\ wsec s' = wsec s /\
+      pccs s' = pccs s /\ adx s' = adx s /\ ignored s' = ignored s /\ (xepoch s' = xepoch s \/ xepoch s' = r_epoch r))).
+  { intros s0 Hs0 Hk. destruct out; try (exfalso; revert Hk; unfold skipD, fatal; repeat break_if; congruence).
+    - left. eexists. split; [reflexivity|]. eapply skipD_out; eassumption.
+    - right. apply skipD_state in Hk; [|left; reflexivity]. subst s'. split; [left; reflexivity|].
+      destruct Hs0; subst s0; cbn; repeat split; auto.
+    - right. apply skipD_state in Hk; [|right; reflexivity]. subst s'. split; [right; reflexivity|].
+      destruct Hs0; subst s0; cbn; repeat split; auto. }
+  destruct (Z.eqb (r_epoch r) (xepoch s)) eqn:Ee.
+  - apply Z.eqb_eq in Ee. destruct (r_replay r) eqn:Er.
+    + exfalso. apply Hna. left. auto.
+    + injection H as H1 H2. subst. right. split; [left; reflexivity|]. repeat split; auto.
+  - destruct (Z.ltb (xepoch s) (r_epoch r)) eqn:En; cbn [andb] in H.
+    + apply Z.ltb_lt in En.
+      destruct (Z.eqb (r_outer r) c_SSL_RECORD_TYPE_HANDSHAKE && Z.eqb (hs s) c_SSL_HS_FINISHED) eqn:E1.
+      * apply andb_prop in E1. destruct E1 as [E1a E1b]. apply Z.eqb_eq in E1a. apply Z.eqb_eq in E1b.
+        destruct (pccs s) eqn:Ep; cbn [negb] in H.
+        -- exfalso. apply Hna. right. split; [assumption|]. right. auto.
+        -- injection H as H1 H2. subst. right. split; [left; reflexivity|]. repeat split; auto.
+      * destruct (Z.eqb (r_outer r) c_SSL_RECORD_TYPE_APPLICATION_DATA && Z.eqb (hs s) c_SSL_HS_DONE) eqn:E2.
+        -- apply andb_prop in E2. destruct E2 as [E2a E2b]. apply Z.eqb_eq in E2a. apply Z.eqb_eq in E2b.
+           exfalso. apply Hna. right. split; [assumption|]. left. auto.
+        -- destruct (Z.eqb (r_outer r) c_SSL_RECORD_TYPE_HANDSHAKE && Z.eqb (hs s) c_SSL_HS_DONE).
+           ++ eapply S; [right; reflexivity|eassumption].
+           ++ eapply S; [left; reflexivity|eassumption].
+    + eapply S; [left; reflexivity|eassumption].
+Qed.
+
+(* a DTLS record that reaches decryption on a session with read protection and does not verify is fatal: MatrixSSL does not use
+   RFC 6347 4.1.2.7's permission to discard it *)
+Lemma decodeD_body_bad s r o s' out :
+  rsec s = true -> is_good r = false -> decodeD_body s r o = (s', out) -> exists d, out = AlertOut d /\ err s' = true.
+Proof.
+  intros Hr Hg H. unfold decodeD_body, fatal in H. unfold is_good in Hg. rewrite Hr, Hg in H. cbn in H.
+  injection H as H1 H2. subst. eexists. split; reflexivity.
+Qed.
+
+Theorem dtls_undecryptable_kills : forall s r o s' out,
+  rsec s = true -> is_good r = false -> r_hdr r = HdrOk -> dtls_accepts s r ->
+  decodeD s r o = (s', out) -> exists d, out = AlertOut d /\ err s' = true.
+Proof.
+  intros s r o s' out Hr Hg Hh Ha H. unfold decodeD in H. rewrite Hh in H.
+  destruct Ha as [[He Hf]|[Hlt Hc]].
+  - rewrite He, Z.eqb_refl, Hf in H. eapply decodeD_body_bad; eassumption.
+  - assert (Ene : Z.eqb (r_epoch r) (xepoch s) = false) by (apply Z.eqb_neq; intro; rewrite H0 in Hlt; apply Z.lt_irrefl in Hlt; exact Hlt).
+    rewrite Ene in H. apply Z.ltb_lt in Hlt. rewrite Hlt in H. cbn [andb] in H.
+    destruct Hc as [[Ht Hs]|[Ht [Hs Hp]]].
+    + rewrite Ht, Hs in H.
+      replace (Z.eqb c_SSL_RECORD_TYPE_APPLICATION_DATA c_SSL_RECORD_TYPE_HANDSHAKE) with false in H by reflexivity.
+      cbn [andb] in H. rewrite !Z.eqb_refl in H. cbn [andb] in H.
+      eapply (decodeD_body_bad (set_xepoch s (r_epoch r))); try eassumption.
+    + rewrite Ht, Hs, Hp in H. rewrite !Z.eqb_refl in H. cbn [andb negb] in H.
+      eapply (decodeD_body_bad (set_xepoch s (r_epoch r))); try eassumption.
+Qed.
+
+(* every outcome of the DTLS decoder that is not a fatal alert / a received alert leaves the flags alone; with the two theorems
+   above: a DTLS session is flagged exactly when it sent a fatal alert or received a fatal alert / close_notify *)
+Theorem dtls_flags_only_by_alerts : forall s r o s' out,
+  decodeD s r o = (s', out) ->
+  match out with
+  | AlertOut _ => err s' = true
+  | AlertIn _ _ => True
+  | _ => err s' = err s /\ closed s' = closed s
+  end.
+Proof.
+  intros s r o s' out H. destruct out; try exact I.
+  - exfalso. revert H. unfold decodeD, decodeD_body, skipD, apply_hsD, recv_alert12, fatal.
+    destruct (r_hdr r); try congruence. repeat break_if; try congruence; destruct (r_replay r); try congruence; destruct o; repeat break_if; congruence.
+  - revert H. unfold decodeD, decodeD_body, skipD, apply_hsD, recv_alert12, fatal.
+    destruct (r_hdr r); try congruence. repeat break_if; try congruence; try (destruct (r_replay r)); try congruence; try (destruct o); repeat break_if; try congruence;
+      intro H; injection H as H; subst s'; split; reflexivity.
+  - eapply decodeD_out; eassumption.
+  - revert H. unfold decodeD, decodeD_body, skipD, apply_hsD, recv_alert12, fatal.
+    destruct (r_hdr r); try congruence. repeat break_if; try congruence; try (destruct (r_replay r)); try congruence; try (destruct o); repeat break_if; try congruence;
+      intro H; injection H as H; subst s'; split; reflexivity.
+  - revert H. unfold decodeD, decodeD_body, skipD, apply_hsD, recv_alert12, fatal.
+    destruct (r_hdr r); try congruence. repeat break_if; try congruence; try (destruct (r_replay r)); try congruence; try (destruct o); repeat break_if; try congruence;
+      intro H; injection H as H; subst s'; split; reflexivity.
+  - revert H. unfold decodeD, decodeD_body, skipD, apply_hsD, recv_alert12, fatal.
+    destruct (r_hdr r); try congruence. repeat break_if; try congruence; try (destruct (r_replay r)); try congruence; try (destruct o); repeat break_if; try congruence;
+      intro H; injection H as H; subst s'; split; reflexivity.
+Qed.
+
+(* matrixDtlsGetOutdata: a flagged session never has its last flight encoded again (C15 repair in dtls.c) *)
+Theorem dtls_getout_dead : forall s pending fd resumed cauth,
+  err s || closed s = true -> dtls_getout s pending fd resumed cauth <> GoResend.
+Proof.
+  intros s p fd rs ca H. unfold dtls_getout. rewrite H.
+  destruct p; [discriminate|]. destruct (adx s); [discriminate|]. destruct fd; discriminate.
+Qed.
+(* and on a live session the flight is rebuilt only when nothing is pending, no application data has been received, the previous
+   flight has been handed out completely and the state is a flight boundary *)
+Theorem dtls_getout_resend : forall s pending fd resumed cauth,
+  dtls_getout s pending fd resumed cauth = GoResend ->
+  pending = false /\ adx s = false /\ fd = false /\ err s = false /\ closed s = false /\ can_resend s resumed cauth = true.
+Proof.
+  intros s p fd rs ca. unfold dtls_getout.
+  destruct p; [discriminate|]. destruct (adx s); [discriminate|]. destruct fd; [discriminate|].
+  destruct (err s || closed s) eqn:E; [discriminate|]. apply orb_false_elim in E. destruct E.
+  destruct (can_resend s rs ca); [|discriminate]. intros _. repeat split; auto.
+Qed.
+
 (* ------------------------------------------------------------------ non-vacuity *)
 Definition st0 (is13 srv : bool) (h : Z) (r : bool) : st :=
   {| v13 := is13; server := srv; hs := h; rsec := r; wsec := r; err := false; closed := false; ed_skip := false;
-     ed_seen := 0; ed_max := 0; limbo := false; ignored := 0; cl_early := false; sv_early := false; ccs_last := false; nst_pending := false |}.
+     ed_seen := 0; ed_max := 0; limbo := false; ignored := 0; cl_early := false; sv_early := false; ccs_last := false; nst_pending := false;
+     dtls := false; xepoch := 0; pccs := false; adx := false |}.
+Definition stD (srv : bool) (h : Z) (r : bool) (e : Z) : st :=
+  {| v13 := false; server := srv; hs := h; rsec := r; wsec := r; err := false; closed := false; ed_skip := false;
+     ed_seen := 0; ed_max := 0; limbo := false; ignored := 0; cl_early := false; sv_early := false; ccs_last := false; nst_pending := false;
+     dtls := true; xepoch := e; pccs := r; adx := false |}.
 Definition rec_app (p : prot) (inner : Z) : rec :=
   {| r_hdr := HdrOk; r_outer := c_SSL_RECORD_TYPE_APPLICATION_DATA; r_short_alert := false; r_prot := p; r_inner := inner;
-     r_ccs_ok := true; r_alert_ok := true; r_alert_level := 0; r_alert_desc := 0; r_overflow := false; r_empty := false; r_len := 5; r_decfail := false |}.
+     r_ccs_ok := true; r_alert_ok := true; r_alert_level := 0; r_alert_desc := 0; r_overflow := false; r_empty := false; r_len := 5; r_decfail := false;
+     r_epoch := 0; r_replay := Fresh |}.
+Definition rec_appD (p : prot) (e : Z) (w : replay) : rec :=
+  {| r_hdr := HdrOk; r_outer := c_SSL_RECORD_TYPE_APPLICATION_DATA; r_short_alert := false; r_prot := p; r_inner := 0;
+     r_ccs_ok := true; r_alert_ok := true; r_alert_level := 0; r_alert_desc := 0; r_overflow := false; r_empty := false; r_len := 5; r_decfail := false;
+     r_epoch := e; r_replay := w |}.
 Definition no_hs := HsFatal 0.
 Example ex_deliver_done13 : snd (decode (st0 true false c_SSL_HS_DONE true) (rec_app Good c_SSL_RECORD_TYPE_APPLICATION_DATA) no_hs) = Deliver.
 Proof. vm_compute. reflexivity. Qed.
@@ -366,4 +687,23 @@ Proof. vm_compute. reflexivity. Qed.
 Example ex_bad_mac_kills12 :
   let '(s1, o1) := decode (st0 false true c_SSL_HS_DONE true) (rec_app Bad 0) no_hs in
   o1 = AlertOut c_SSL_ALERT_BAD_RECORD_MAC /\ snd (decode s1 (rec_app Good 0) no_hs) = Refuse.
+Proof. vm_compute. split; reflexivity. Qed.
+(* DTLS: a genuine record is delivered once; its copy is dropped silently and the session lives on; a forged record of the
+   expected epoch with a fresh sequence number kills the session; a plaintext record of epoch 0 is dropped with a retransmission
+   request; data of a later epoch is taken (and its epoch adopted) *)
+Example ex_dtls_deliver_once :
+  let s0 := stD true c_SSL_HS_DONE true 1 in
+  let '(s1, o1) := decode s0 (rec_appD Good 1 Fresh) no_hs in
+  let '(s2, o2) := decode s1 (rec_appD Good 1 Dup) no_hs in
+  let '(s3, o3) := decode s2 (rec_appD Plain 0 Fresh) no_hs in
+  let '(s4, o4) := decode s3 (rec_appD Good 2 Fresh) no_hs in
+  let '(s5, o5) := decode s4 (rec_appD Bad 2 Fresh) no_hs in
+  o1 = Deliver /\ adx s1 = true /\ o2 = Ignored /\ s2 = s1 /\ o3 = Resend /\ s3 = s2 /\ o4 = Deliver /\ xepoch s4 = 2 /\
+  o5 = AlertOut c_SSL_ALERT_BAD_RECORD_MAC /\ snd (decode s5 (rec_appD Good 2 Fresh) no_hs) = Refuse.
+Proof. vm_compute. repeat split; reflexivity. Qed.
+Example ex_dtls_attacker_input : attacker_input (stD true c_SSL_HS_DONE true 1) (rec_appD Good 1 Dup, no_hs).
+Proof. right. repeat split; reflexivity. Qed.
+Example ex_dtls_getout :
+  dtls_getout (stD false c_SSL_HS_SERVER_HELLO false 0) false false false false = GoResend /\
+  dtls_getout (set_err (stD false c_SSL_HS_FINISHED false 0)) false false false false = GoRefused.
 Proof. vm_compute. split; reflexivity. Qed.
